@@ -146,12 +146,14 @@ def body(ctx, case):
                     d = m - (t + off)
                     ctx.assume(h.disj([h.close(d, 0.0, 0.0), d >= pipeline.GAPP, -d >= pipeline.GAPP]))
         twin = [s for i, s in enumerate(streams) if i != case.get("split", 1)]
-        twin += [(zone, name + "a", ts, m, cp, dt), (zone, name + "b", m, tt, cp, dt)]
+        na, nb = (name, name) if case.get("same_names") else (name + "a", name + "b")     # the pieces may keep the stream's name
+        twin += [(zone, na, ts, m, cp, dt), (zone, nb, m, tt, cp, dt)]
         twin_streams = [mk_stream(ctx, *s) for s in twin]
     elif tr == "split_parallel":
         zone, name, ts, tt, cp, dt = streams[case.get("split", 1)]
         twin = [s for i, s in enumerate(streams) if i != case.get("split", 1)]
-        twin += [(zone, name + "a", ts, tt, cp * 0.25, dt), (zone, name + "b", ts, tt, cp * 0.75, dt)]
+        na, nb = (name, name) if case.get("same_names") else (name + "a", name + "b")
+        twin += [(zone, na, ts, tt, cp * 0.25, dt), (zone, nb, ts, tt, cp * 0.75, dt)]
         twin_streams = [mk_stream(ctx, *s) for s in twin]
     elif tr == "translate":
         d = ctx.real("delta", -30, 30)
@@ -167,6 +169,20 @@ def body(ctx, case):
     else:
         raise ValueError(tr)
     twin_spec = {"streams": twin_streams, "utilities": mk_utils(ctx, case, kw.get("shift", 0.0)), "options": {"DO_BALANCED_CC": False}}
+    if case.get("one_name"):
+        # stream names need not be unique: every stream of both descriptions carries the same name
+        for sp in (base_spec, twin_spec):
+            sp["streams"] = [dict(st, name="S") for st in sp["streams"]]
+    if case.get("tree"):
+        # explicit zone tree (streams sit directly in the user's zones, several per zone) instead of the synthesised one
+        ren = kw.get("rename") or {}
+        for sp, names in ((base_spec, lambda z: z), (twin_spec, lambda z: ren.get(z, z))):
+            zs = []
+            for st in sp["streams"]:
+                if st["zone"] not in zs:
+                    zs.append(st["zone"])
+            sp["zone_tree"] = {"name": "Site", "type": "Site", "children": [{"name": z, "type": "Process Zone", "children": None} for z in zs]}
+        ctx.tag("explicit zone tree")
     rb = records_by_name(service.call_service(ctx, service.make_input(ctx, base_spec, "dict"), project_name="Site"))
     rt = records_by_name(service.call_service(ctx, service.make_input(ctx, twin_spec, "dict"), project_name="Site"))
     compare(ctx, rb, rt, tot, tr, **kw)
@@ -185,6 +201,7 @@ def cases(tier, seed):
         out.append({"template": "two_zones", "transform": "translate", "sweep": False})
         out.append({"template": "two_zones", "transform": "translate", "sweep": False, "utils": True})
         out.append({"template": "one_zone", "transform": "mirror"})
+        out.append({"template": "one_zone", "transform": "split_T", "split": 1, "sweep": False, "tree": True, "same_names": True})
     else:
         for tp in ("one_zone", "two_zones", "three"):
             for tr in ("permute", "split_parallel", "mirror"):
@@ -196,6 +213,10 @@ def cases(tier, seed):
         out.append({"template": "two_zones", "transform": "rename"})
         out.append({"template": "three", "transform": "rename"})
         out.append({"template": "two_zones", "transform": "mirror", "sym": 1})
+        for tp in ("one_zone", "three"):
+            out.append({"template": tp, "transform": "split_T", "split": 1, "sweep": False, "tree": True, "same_names": True})
+            out.append({"template": tp, "transform": "split_parallel", "split": 1, "tree": True, "same_names": True})
+            out.append({"template": tp, "transform": "permute", "tree": True, "one_name": True})
     return out
 
 
@@ -203,10 +224,11 @@ FAMILIES = [
     Family(name="twins", cases=cases, body=body, functions=FUNCS, files=FILES,
            bounds="site templates of 2-3 streams in 1-2 zones (default utilities) with one supply temperature a z3 real (or, for stream splitting and translation, the split temperature / "
                   "the shift a z3 real on a concrete problem); transformations: stream permutation, zone renaming + reordering, split at a symbolic temperature, parallel split 25/75, "
-                  "translation by a symbolic shift in [-30,30], mirroring T -> 500 - T with hot <-> cold",
+                  "translation by a symbolic shift in [-30,30], mirroring T -> 500 - T with hot <-> cold; splitting also with an explicit zone tree and pieces that keep the stream's name "
+                  "(thorough: permutation of streams that all share one name)",
            assumptions=["floats modelled as exact reals", "pydantic stand-ins and identity curve cleaning during symbolic runs", "breakpoints equal or >= 0.25 K apart",
                         "uniform duty scaling is outside the claim: the code's absolute zero tolerances (1e-6 kW) make residuals inside the band (0, 1e-6 x lambda) scale-dependent; "
                         "the reals model finds such inputs but they do not exist on the 1e-6 K input lattice (not replayable), so the family would be inconclusive by construction",
                         "graph data comparison is outside"],
-           shim_modules=None, snap="micro", split_paths=6, validate_every=4, reach=[], case_cap_s=3000),
+           shim_modules=None, snap="micro", split_paths=6, validate_every=4, reach=["explicit zone tree"], case_cap_s=3000),
 ]
